@@ -19,7 +19,9 @@ RULE = ('cases: (a) one Calendar(key=None, holidays, weekend, t0, t1, adj) on a 
         'day by day against the holidays LAST registered for that key. Observations (ordinals / error class) are compared in Coq with M_bdays; the oracle recomputes every answer by walking '
         'day by day from the property text and additionally checks on the real code bdays(t, add(t,n)) == n, add(add(t,n),-n) == t for business days, '
         'add(t,2) == add(add(t,1),1). Indexed-path (|n|>1) results that leave [t0,t1] (KeyError) are outside the property (model reproduces them, oracle ignores them); a returned date must always be the n-th business day and the single-step path (|n|<=1, no table) must return it even beyond t1/t0. '
-        'add(t, 0) is not executed when the code\'s own adjust(t) is a holiday (unbounded loop; model: OutOfFuel). non-trivial = calendar with holidays or '
+        'Query dates are spelt as midnight datetime, datetime with a time of day (down to 1 us), pandas.Timestamp, datetime.date or numpy.datetime64[D/s/us/ns] '
+        '(day-level semantics: same answers, results must be midnight datetimes; an exception, a wrong day or a non-midnight / non-datetime result is a violation; numpy.datetime64 is not used '
+        'for is_bday / is_holiday nor with convention m, where the pinned code raises AttributeError). add(t, 0) is not executed when the code\'s own adjust(t) is a holiday (unbounded loop; model: OutOfFuel). non-trivial = calendar with holidays or '
         'a weekend / registry sequence with an overwrite; distinct by full case')
 EXPLANATION = ('theorems C05_* hold for EVERY holiday predicate, weekend predicate, month function and range: is_bday characterisation; adjust f/p = least/greatest business day '
                'with termination bound; m = f unless the month changes; dt2int = day-by-day count, int2dt its inverse, table successor = next business day; add (both paths) '
@@ -122,7 +124,11 @@ class Runner:
     def __init__(self, case, cal=None):
         self.case = case
         f = case.get('forms') or {}
-        self.tod = datetime.timedelta(microseconds=f.get('tod', 0)); self.ts = bool(f.get('ts'))
+        self.tod = datetime.timedelta(microseconds=f.get('tod', 0))
+        # spelling of the query dates: 'dt' midnight datetime | 'tod' datetime with a time of day | 'ts' pandas Timestamp |
+        # 'date' datetime.date | 'np' numpy datetime64 (unit D / us / ns).  Day-level semantics: the answer must not depend on it
+        self.dform = f.get('dform') or ('ts' if f.get('ts') else 'tod' if f.get('tod') else 'dt')
+        self.npunit = f.get('npunit', 'us')
         if cal is None:
             wk = list(case['wk']); wf = f.get('wkform', 'list')
             wk_py = None if wf == 'none' else wk[0] if wf == 'int' else tuple(wk) if wf == 'tuple' else wk
@@ -136,33 +142,51 @@ class Runner:
             call(cal.clock, D(case['t0']))      # _populate of 146098 days, outside the per-call watchdog
         self.o = Oracle(case)
         self.viol = None
-    def DT(self, d):
-        """the query date in the case's input form: midnight datetime / datetime with a time of day / pandas Timestamp"""
+    def DT(self, d, a='f'):
+        """the query date in the case's spelling.  numpy datetime64 is used only where the pinned code accepts it: not for
+        is_bday / is_holiday (`date.weekday()`) nor with the effective convention 'm' (`date.month`): AttributeError there (see coverage/C05.md)"""
+        if self.dform == 'date':
+            return datetime.date.fromordinal(d)
         t = D(d) + self.tod
-        if self.ts:
+        if self.dform == 'ts':
             import pandas as pd
-            t = pd.Timestamp(t)
+            return pd.Timestamp(t)
+        if self.dform == 'np' and a is not None and eff_adj(a if a != 'dflt' else None, self.case['adj']) != 'm':
+            import numpy as np
+            return np.datetime64(t, self.npunit)
         return t
+    def what(self):
+        return '' if self.dform == 'dt' else ' (query dates spelt as %s%s)' % ({'tod': 'datetime with time of day', 'ts': 'pandas.Timestamp', 'date': 'datetime.date', 'np': 'numpy.datetime64[%s]' % self.npunit}[self.dform],
+                                                                          ' +%s' % self.tod if self.tod and self.dform != 'date' else '')
     def bad(self, msg):
         if self.viol is None:
             c = self.case
-            self.viol = '%s  [Calendar t0=%s t1=%s weekend=%s adj=%s, %d holidays]' % (msg, D(c['t0']).date(), D(c['t1']).date(), c['wk'], c['adj'], len(c['hol']))
+            self.viol = '%s%s  [Calendar t0=%s t1=%s weekend=%s adj=%s, %d holidays]' % (msg, self.what(), D(c['t0']).date(), D(c['t1']).date(), c['wk'], c['adj'], len(c['hol']))
     def q_isb(self, d):
-        r = bool(self.cal.is_bday(self.DT(d)))
+        st, r = call(self.cal.is_bday, self.DT(d, None))
+        if st != 'ok':
+            if self.o.inside(d): self.bad('is_bday(%s) raised %s' % (D(d).date(), st))
+            return ['ERR', st]
+        r = bool(r)
         if self.o.a <= d <= self.o.b and r != self.o.isb(d):
             self.bad('is_bday(%s) = %s but the day is%s a weekend day or holiday' % (D(d).date(), r, '' if not self.o.isb(d) else ' not'))
         return r
     def q_ish(self, d):
-        r = bool(self.cal.is_holiday(self.DT(d)))
+        st, r = call(self.cal.is_holiday, self.DT(d, None))
+        if st != 'ok':
+            if self.o.inside(d): self.bad('is_holiday(%s) raised %s' % (D(d).date(), st))
+            return ['ERR', st]
+        r = bool(r)
         if self.o.a <= d <= self.o.b and r == self.o.isb(d):
             self.bad('is_holiday(%s) = %s contradicts weekend/holiday membership' % (D(d).date(), r))
         return r
     def q_adj(self, a, d):
-        st, r = call(self.cal.adjust, self.DT(d), a)
+        st, r = call(self.cal.adjust, self.DT(d, a or 'dflt'), a)
+        e = self.o.adjust(d, eff_adj(a, self.case['adj']))
         if st != 'ok':
+            if e is not None: self.bad('adjust(%s, %r) raised %s, the nearest business day by that convention is %s' % (D(d).date(), a, st, D(e).date()))
             return ['ERR', st]
         r = _ord(r)
-        e = self.o.adjust(d, eff_adj(a, self.case['adj']))
         if e is not None and r != e:
             self.bad('adjust(%s, %r) = %s, the nearest business day by that convention is %s' % (D(d).date(), a, D(r).date(), D(e).date()))
         elif e is None and self.o.inside(d) and self.o.inside(r) and (not self.o.isb(r) or eff_adj(a, self.case['adj']) != 'm'):
@@ -173,10 +197,10 @@ class Runner:
     def add_raw(self, a, d, n):
         """('ok', ordinal) | (errname, None) | ('OutOfFuel', None) when the call would not return"""
         if n == 0:
-            st, s = call(self.cal.adjust, self.DT(d), a)
+            st, s = call(self.cal.adjust, self.DT(d, a or 'dflt'), a)
             if st == 'ok' and self.cal.is_holiday(s):
                 return 'OutOfFuel', None
-        st, r = guarded(self.cal.add, self.DT(d), n, a)
+        st, r = guarded(self.cal.add, self.DT(d, a or 'dflt'), n, a)
         return (st, _ord(r)) if st == 'ok' else (st, None)
     def q_add(self, a, d, n, laws=True):
         st, r = self.add_raw(a, d, n)
@@ -192,7 +216,7 @@ class Runner:
                 elif r != e:
                     self.bad('add(%s, %d, %r) = %s; counting %d business days from %s gives %s' % (D(d).date(), n, a, D(r).date(), n, D(s).date(), D(e).date()))
                 elif laws and self.viol is None and self.o.inside(e):
-                    s2, b = call(self.cal.bdays, self.DT(d), self.DT(r), a)
+                    s2, b = call(self.cal.bdays, self.DT(d, a or 'dflt'), self.DT(r, a or 'dflt'), a)
                     if s2 != 'ok' or b != n:
                         self.bad('bdays(%s, add(%s, %d)) = %s, expected %d' % (D(d).date(), D(d).date(), n, b if s2 == 'ok' else s2, n))
                     if self.o.isb(d):
@@ -206,7 +230,7 @@ class Runner:
                             self.bad('add(%s, 2) = %s but add(add(%s, 1), 1) = %s' % (D(d).date(), D(r).date(), D(d).date(), D(r2).date() if s5 == 'ok' else s5))
         return r if st == 'ok' else ['ERR', st]
     def q_bd(self, a, x, y):
-        st, r = call(self.cal.bdays, self.DT(x), self.DT(y), a)
+        st, r = call(self.cal.bdays, self.DT(x, a or 'dflt'), self.DT(y, a or 'dflt'), a)
         ea = eff_adj(a, self.case['adj'])
         sx, sy = self.o.adjust(x, ea), self.o.adjust(y, ea)
         if sx is not None and sy is not None:
@@ -226,7 +250,7 @@ class Runner:
                     D(sx).date(), D(sy).date(), len(e), [str(D(t).date()) for t in e[:3]], [str(D(t).date()) for t in e[-2:]]))
         return obs
     def q_clk(self, d):
-        st, r = call(self.cal.clock, self.DT(d))
+        st, r = call(self.cal.clock, self.DT(d, 'dflt'))
         s = self.o.adjust(d, self.case['adj'])
         if s is not None:
             e = sum(1 for x in range(self.o.a, s) if self.o.isb(x))
@@ -245,7 +269,7 @@ class Runner:
             exp = self.o.nth(s, n) if s is not None else None
             if exp is not None and not self.o.inside(exp): exp = None
         # the code's own unbounded loop (n = 0 from a holiday outside the calendar) is not executed
-        cur = self.DT(d)
+        cur = self.DT(d, a or 'dflt')
         for n, z in toks:
             st0, c1 = call(self.cal.adjust, cur, 'f' if z == 1 else 'p') if z else ('ok', cur)
             if st0 != 'ok': break
@@ -256,7 +280,7 @@ class Runner:
             if st0 != 'ok': break
         if hang:
             return ['ERR', 'OutOfFuel']
-        st, r = guarded(self.cal.dt_bump, self.DT(d), text, a)
+        st, r = guarded(self.cal.dt_bump, self.DT(d, a or 'dflt'), text, a)
         if st == 'ok': r = _ord(r)
         if exp is not None and (st != 'ok' or r != exp):
             self.bad('dt_bump(%s, %r, %r) = %s; counting business days token by token gives %s' % (D(d).date(), text, a, D(r).date() if st == 'ok' else st, D(exp).date()))
@@ -301,7 +325,7 @@ def impl_registry(case):
             c = calendar(key)
             if k not in last: last[k] = list(DEFAULT)
             reg = last[k]
-            r = Runner({'t0': reg[2], 't1': reg[3], 'hol': reg[0], 'wk': reg[1], 'adj': 'm'}, cal=c)
+            r = Runner({'t0': reg[2], 't1': reg[3], 'hol': reg[0], 'wk': reg[1], 'adj': 'm', 'forms': case.get('forms')}, cal=c)
             try:
                 obs.append(r.run(op[2]))
             except NotADay as e:
@@ -446,9 +470,10 @@ def gen_calendar(rng, dens, wkname, adj, tier, span=None):
     # input forms (Python side only; the model sees the canonical calendar): time of day / sub-second part on query dates,
     # pandas Timestamps, weekend as None / int / tuple, holidays unsorted with duplicates or None, spelled constructor adj
     forms = {}
-    r = rng.random()
-    if r < 0.35: forms['tod'] = rng.choice([1, 999999, 43200000000, 86399999999, rng.randrange(1, 86400000000)])
-    if rng.random() < 0.2: forms['ts'] = True
+    forms['dform'] = rng.choice(['dt', 'dt', 'tod', 'tod', 'ts', 'date', 'date', 'np', 'np', 'np'])
+    if forms['dform'] in ('tod', 'ts', 'np'):
+        forms['tod'] = rng.choice([0, 1, 999999, 43200000000, 86399999999, rng.randrange(1, 86400000000)] if forms['dform'] != 'tod' else [1, 999999, 43200000000, 86399999999, rng.randrange(1, 86400000000)])
+    if forms['dform'] == 'np': forms['npunit'] = rng.choice(['D', 'us', 'ns', 's'])
     wk = WEEKENDS[wkname]
     forms['wkform'] = rng.choice(['list', 'tuple'] + (['none'] if wk == [5, 6] else []) + (['int'] if len(wk) == 1 else []))
     if hol and rng.random() < 0.5:
@@ -567,7 +592,9 @@ def gen_registry_tables(rng):
         if rng.random() < 0.3: ops.append(['call', k, None, None, None, None])
     for k in range(nkeys):      # after the last registration
         burst(k, cur[k][0])
-    return {'kind': 'reg', 'ops': ops, 'keyform': rng.choice(list(KEYFORMS))}
+    dform = rng.choice(['dt', 'tod', 'ts', 'date', 'np'])
+    return {'kind': 'reg', 'ops': ops, 'keyform': rng.choice(list(KEYFORMS)),
+            'forms': {'dform': dform, 'tod': 0 if dform in ('dt', 'date') else rng.choice([1, 43200000000, 86399999999]), 'npunit': rng.choice(['D', 'us', 'ns'])}}
 
 def gen_cases(rng, tier):
     cases = []
